@@ -1,6 +1,6 @@
 (* Correspondence cases for C21: the driver started the real externalcmd.Cmd. *)
 From Coq Require Import List ZArith Bool.
-Require Export MTX.Model.C21_ExtCmd.
+Require Export MTX.Model.C21_ExtCmd MTX.Model.C21_HookEnv.
 Import ListNotations.
 Local Open Scope Z_scope.
 
@@ -16,10 +16,15 @@ Inductive obs :=
 (* the words the author of a structured template meant: literal text and whole variable references *)
 Inductive xpiece := XLit (b : bytes) | XVar (name : bytes).
 
+(* hook events of a real core.path and the commands that ran; every string is an index into the case's table *)
+Inductive xev := XEv (kind : Z) (base sets : list (Z * Z)).
+Inductive xcmd := XCmd (argv : list Z) (env : list (Z * Z)).
+
 Inductive case :=
 | Run (helper tmpl : bytes) (env base : list (bytes * bytes)) (exit : Z)
       (intended : option (list (list xpiece))) (o : obs)
-| ExitC (st : wait_status) (restart : bool) (reported : option Z).
+| ExitC (st : wait_status) (restart : bool) (reported : option Z)
+| HookEnv (tbl : list bytes) (arg_keys : list Z) (events : list xev) (cmds : list xcmd).
 
 Fixpoint list_eqb {A} (eqb : A -> A -> bool) (a b : list A) : bool :=
   match a, b with
@@ -42,8 +47,36 @@ Definition err_code (e : split_err) : Z :=
 Definition same_set (a b : list bytes) : bool :=
   (length a =? length b)%nat && forallb (fun e => memb e b) a && forallb (fun e => memb e a) b.
 
+(* ---- hook events: decoding, comparison of command sets ---- *)
+Definition tb (tbl : list bytes) (i : Z) : bytes := nth (Z.to_nat i) tbl [].
+Definition tb_pairs (tbl : list bytes) (l : list (Z * Z)) : list (bytes * bytes) :=
+  map (fun p => (tb tbl (fst p), tb tbl (snd p))) l.
+
+Definition cmd_eqb (a b : list bytes * list (bytes * bytes)) : bool :=
+  list_eqb bytes_eqb (fst a) (fst b) && same_set (map entry (snd a)) (map entry (snd b)).
+
+Definition count_cmd (x : list bytes * list (bytes * bytes)) (l : list (list bytes * list (bytes * bytes))) : nat :=
+  length (filter (cmd_eqb x) l).
+
+(* the same commands, whatever the order *)
+Definition same_cmds (a b : list (list bytes * list (bytes * bytes))) : bool :=
+  (length a =? length b)%nat && forallb (fun x => (count_cmd x a =? count_cmd x b)%nat) a.
+
+Definition obs_cmds (tbl : list bytes) (cmds : list xcmd) :=
+  map (fun c => match c with XCmd av ev => (map (tb tbl) av, tb_pairs tbl ev) end) cmds.
+
+Definition model_events (tbl : list bytes) (events : list xev) : list hevent :=
+  map (fun e => match e with XEv k b s => HEv (tb tbl k) (tb_pairs tbl b) (tb_pairs tbl s) end) events.
+
+(* the model: the call sites build one map per event; the commands read after the last event *)
+Definition model_cmds (keys : list bytes) (evs : list hevent) :=
+  map (fun r => (hook_argv (ev_kind (nth (fst r) evs (HEv [] [] []))) keys (snd r), snd r))
+      (hrun hinit (reads_last (per_event 0 evs) (length evs))).
+
 Definition mismatch (c : case) : bool :=
   match c with
+  | HookEnv tbl keys events cmds =>
+      negb (same_cmds (model_cmds (map (tb tbl) keys) (model_events tbl events)) (obs_cmds tbl cmds))
   | Run helper tmpl env base exit _ o =>
       match run_launch tmpl env base, o with
       | LSplitErr e, OSplitErr k => negb (err_code e =? k)
@@ -94,8 +127,26 @@ Definition env_verbatim (env : list (bytes * bytes)) (environ : list bytes) : bo
              list_eqb (list_eqb Z.eqb) (filter (starts_with (fst kv ++ [61])) environ) [fst kv ++ 61 :: snd kv])
           env.
 
+(* the property on the observation: every event has its command, with exactly the values of THAT event
+   (later additions of the call site win over ExternalCmdEnv's), and there is no other command *)
+Definition ev_value (base sets : list (bytes * bytes)) (k : bytes) : option bytes :=
+  match find_val k (rev sets) with Some v => Some v | None => find_val k base end.
+
+Fixpoint uniq_keys (l : list bytes) : list bytes :=
+  match l with [] => [] | k :: r => if memb k r then uniq_keys r else k :: uniq_keys r end.
+
+Definition expected_cmd (keys : list bytes) (kind : bytes) (base sets : list (bytes * bytes)) :=
+  (kind :: map (fun k => match ev_value base sets k with Some v => v | None => [] end) keys,
+   map (fun k => (k, match ev_value base sets k with Some v => v | None => [] end))
+       (uniq_keys (map fst (base ++ sets)))).
+
 Definition spec_fail (c : case) : bool :=
   match c with
+  | HookEnv tbl keys events cmds =>
+      negb (same_cmds
+              (map (fun e => match e with XEv k b s =>
+                                expected_cmd (map (tb tbl) keys) (tb tbl k) (tb_pairs tbl b) (tb_pairs tbl s) end) events)
+              (obs_cmds tbl cmds))
   | Run helper tmpl env base exit intended o =>
       match o with
       | ORan args environ rep =>
